@@ -702,6 +702,8 @@ theorem setParams_facts {s s' : State} {pc ct : Nat} {vs : List Validator} (h : 
   · cases h
   split at h
   · cases h
+  split at h
+  · cases h
   simp only [] at h
   split at h
   · cases h
